@@ -136,7 +136,7 @@ StepOp(ev) ==
       I1 == S1.inst[i]
       lfodMay == IF ~par \/ ~en THEN {}
                  ELSE IF I1.emu # EMU_NP2 \/ ~I1.lfo THEN {}
-                 ELSE IF ev.e \in {"Create", "Switch", "Pcm", "Chips", "Reset", "Load"} THEN {LtKey(I1)} \cup mayR.wlt
+                 ELSE IF ev.e \in {"Create", "Switch", "Pcm", "Chips", "Reset", "Load", "Fam"} THEN {LtKey(I1)} \cup mayR.wlt
                  ELSE IF ev.e = "Lfo" THEN mayR.lt \cup mayR.wlt
                  ELSE mayR.lfod[i]
       parDiag == IF ~par \/ ~en \/ ~audio THEN {}
@@ -145,7 +145,7 @@ StepOp(ev) ==
                       \cup (IF I1.emu = EMU_NP2 /\ ~FixLfoTable /\ ~(lfodMay \subseteq {LtKey(I1)}) THEN {"np2-lfotable"} ELSE {})
       diag == (IF en THEN S1.last.diag ELSE {}) \cup parDiag
       may1 == [mayR EXCEPT !.lfod[i] = lfodMay,
-                           !.taint[i] = IF ev.e \in {"Create", "Switch", "Pcm", "Chips", "Reset", "Load", "Close"} THEN {} ELSE IF audio THEN diag ELSE @]
+                           !.taint[i] = IF ev.e \in {"Create", "Switch", "Pcm", "Chips", "Reset", "Load", "Fam", "Close"} THEN {} ELSE IF audio THEN diag ELSE @]
       ctx == "inst=" \o ToString(ev.i) \o " call=" \o ToString(kk) \o " core=" \o emu \o " others=" \o JoinEmus(S1, OtherAlive(S1, i))
       fIso == IF ~bound \/ pcmEq THEN {}
               ELSE IF diag # {} THEN { Fail("interference@" \o d, ev, ctx \o " obs=" \o ev.pcm \o " solo=" \o R1.pcm) : d \in diag }
